@@ -58,7 +58,7 @@ pub fn wire_of<M: ZooMsg + ?Sized>(plan: &Arc<Plan>) -> Result<Wire, String> {
         // Under Miri the sender's IoBuffer would hand uninitialised padding bytes to the harness
         // (AlignedBytes::new does not initialise); the harness compares and mutates frames, so
         // for the UB tier the frames are emplaced into an initialised scratch buffer instead.
-        let cap = 2 * plan.max_send.max(M::MIN_SIZE);
+        let cap = plan.send_buf_len;
         let mut frames = Vec::new();
         let mut vals = Vec::new();
         for mp in &plan.msgs {
@@ -90,10 +90,10 @@ pub fn wire_of<M: ZooMsg + ?Sized>(plan: &Arc<Plan>) -> Result<Wire, String> {
             return Err(format!("sender-only run: send #{} = {:?}", a.msg_index, a.result));
         }
         // what counts as "m" is the first size() bytes of the value the sender held
-        frames.push(a.frame.clone());
-        if w.pipe.sink[off..off + a.accepted] != a.frame[..] {
+        if w.pipe.sink[off..off + a.frame.len()] != a.frame[..] {
             return Err("sender-only run: wire differs from frame".into());
         }
+        frames.push(w.pipe.sink[off..off + a.accepted].to_vec());
         off += a.accepted;
         vals.push(a.val.clone());
     }
@@ -115,7 +115,7 @@ fn setup<M: ZooMsg + ?Sized>(dec: &mut Decider, stats: &mut Stats) -> Result<Set
         // A freshly emplaced value did not validate in the buffer it was emplaced into.  If its
         // first size() bytes validate, this is the extension clause of C06 failing on the
         // suffix "whatever the spare bytes of the buffer hold".
-        let cap = 2 * plan.max_send.max(M::MIN_SIZE);
+        let cap = plan.send_buf_len;
         let mut buf = AlignedBytes::new(cap, M::ALIGN);
         buf.fill(0xA5);
         if let Ok(Ok(size)) = guarded(|| M::emplace_val(&mut buf, val).map(|m| m.size())) {
